@@ -178,3 +178,392 @@ Proof.
   rewrite (bind_ok _ _ s0 tt s0) by done.
   rewrite (bind_ok _ _ _ _ _ Erec). cbn [bind modify ret fst]. by rewrite rctx_roundtrip.
 Qed.
+
+(** ** (a) The link: the state reached after [collect_garbage ;;; reorder] *)
+
+(** [dvars] is well formed with respect to the manager: the integer
+    variables are named once and sit at the levels [0..m-1]; every bit is
+    listed once (within and across variables); the bits are exactly the
+    declared variables of the BDD manager *)
+Definition dlevels (dvars : dvars_t) : list nat :=
+  (fun x : nat * (nat * list nat) => x.2.1) <$> dvars.
+Record dvars_wf (dvars : dvars_t) (s : st) : Prop := {
+  dw_names : NoDup (dvars.*1);
+  dw_levels : dlevels dvars ≡ₚ seq 0 (length dvars);
+  dw_bits : NoDup (b2v dvars).*1;
+  dw_decl : ∀ b, b ∈ (b2v dvars).*1 ↔ is_Some (vars s !! b);
+}.
+
+(** the bit lists in the order of the integer levels *)
+Definition bits_at (dvars : dvars_t) (j : nat) : option (list nat) :=
+  match list_find (fun '(_, (l, _)) => bool_decide (l = j)) dvars with
+  | Some (_, (_, (_, bits))) => Some bits
+  | None => None
+  end.
+Definition b2m_target (dvars : dvars_t) : list nat :=
+  concat (omap (bits_at dvars) (seq 0 (length dvars))).
+Definition b2m_b2s (dvars : dvars_t) : list (nat * nat) :=
+  imap (fun k b => (b, k)) (b2m_target dvars).
+
+Lemma mapM_of_opt {A B} (f : A → option B) e (l : list A) (s : st) :
+  (∀ x, x ∈ l → is_Some (f x)) →
+  mapM (fun x => of_opt e (f x)) l s = (Ok (omap f l), s).
+Proof.
+  induction l as [|x l IH]; intros H; [done|].
+  destruct (H x ltac:(left)) as [y Hy]. cbn [mapM omap list_omap]. rewrite Hy.
+  cbn [of_opt]. rewrite (bind_ok _ _ s y s) by done.
+  rewrite (bind_ok _ _ _ _ _ (IH ltac:(intros; apply H; by right))). done.
+Qed.
+
+Lemma b2v_fst_cons v j bits (l : dvars_t) :
+  (b2v ((v, (j, bits)) :: l)).*1 = bits ++ (b2v l).*1.
+Proof.
+  unfold b2v. cbn [flat_map]. rewrite fmap_app. f_equal.
+  cbn. induction bits as [|b bits IH]; [done|]. cbn. by rewrite IH.
+Qed.
+
+Lemma b2v_bits_nodup (dvars : dvars_t) v j bits :
+  NoDup (b2v dvars).*1 → (v, (j, bits)) ∈ dvars → NoDup bits.
+Proof.
+  induction dvars as [|[v' [j' bits']] l IH]; intros Hnd Hin; [by apply elem_of_nil in Hin|].
+  rewrite b2v_fst_cons in Hnd. apply NoDup_app in Hnd as (H1&_&H2).
+  apply elem_of_cons in Hin as [[= -> -> ->]|Hin]; [done|by apply IH].
+Qed.
+
+Section dwf.
+Context (dvars : dvars_t) (s : st) (Hdw : dvars_wf dvars s).
+
+Lemma dw_level_lt v j bits : (v, (j, bits)) ∈ dvars → j < length dvars.
+Proof.
+  intros Hin. assert (j ∈ dlevels dvars) as Hj.
+  { apply elem_of_list_fmap. by exists (v, (j, bits)). }
+  rewrite (dw_levels _ _ Hdw) in Hj. apply elem_of_seq in Hj. lia.
+Qed.
+Lemma dw_level_inj v1 v2 j b1 b2 :
+  (v1, (j, b1)) ∈ dvars → (v2, (j, b2)) ∈ dvars → v1 = v2 ∧ b1 = b2.
+Proof.
+  intros H1 H2. assert (NoDup (dlevels dvars)) as Hnd.
+  { rewrite (dw_levels _ _ Hdw). apply NoDup_seq. }
+  by pose proof (NoDup_fmap_inj_elem (fun x : nat * (nat * list nat) => x.2.1) dvars
+                   _ _ Hnd H1 H2 eq_refl) as [= -> ->].
+Qed.
+Lemma dw_name_inj v j1 j2 b1 b2 :
+  (v, (j1, b1)) ∈ dvars → (v, (j2, b2)) ∈ dvars → j1 = j2 ∧ b1 = b2.
+Proof.
+  intros H1 H2.
+  by pose proof (NoDup_fmap_inj_elem fst dvars _ _ (dw_names _ _ Hdw) H1 H2 eq_refl) as [= -> ->].
+Qed.
+Lemma dw_level_ex j : j < length dvars → ∃ v bits, (v, (j, bits)) ∈ dvars.
+Proof.
+  intros Hj. assert (j ∈ dlevels dvars) as Hin.
+  { rewrite (dw_levels _ _ Hdw). apply elem_of_seq. lia. }
+  apply elem_of_list_fmap in Hin as ([v [j' bits]]&->&Hin). by exists v, bits.
+Qed.
+Lemma dw_bits_nodup v j bits : (v, (j, bits)) ∈ dvars → NoDup bits.
+Proof. apply b2v_bits_nodup, Hdw. Qed.
+Lemma dw_owner b v1 v2 : (b, v1) ∈ b2v dvars → (b, v2) ∈ b2v dvars → v1 = v2.
+Proof.
+  intros H1 H2.
+  by pose proof (NoDup_fmap_inj_elem fst (b2v dvars) _ _ (dw_bits _ _ Hdw) H1 H2 eq_refl) as [= ->].
+Qed.
+
+Lemma bits_at_Some j bits : bits_at dvars j = Some bits ↔ ∃ v, (v, (j, bits)) ∈ dvars.
+Proof.
+  unfold bits_at. split.
+  - destruct (list_find _ dvars) as [[i [v [l bits']]]|] eqn:E; [|done]. intros [= ->].
+    apply list_find_Some in E as (Hi&Hl&_). apply bool_decide_unpack in Hl. subst l.
+    exists v. by eapply elem_of_list_lookup_2.
+  - intros [v Hin].
+    destruct (list_find (fun '(_, (l, _)) => bool_decide (l = j)) dvars)
+      as [[i [v' [l bits']]]|] eqn:E.
+    + apply list_find_Some in E as (Hi&Hl&_). apply bool_decide_unpack in Hl. subst l.
+      apply elem_of_list_lookup_2 in Hi. by destruct (dw_level_inj _ _ _ _ _ Hi Hin) as [_ ->].
+    + exfalso. apply list_find_None in E. rewrite Forall_forall in E.
+      apply (E _ Hin). cbn. by apply bool_decide_pack.
+Qed.
+
+Definition bio : list (list nat) := omap (bits_at dvars) (seq 0 (length dvars)).
+
+Lemma bio_lookup j bits : bio !! j = Some bits ↔ ∃ v, (v, (j, bits)) ∈ dvars.
+Proof.
+  assert (E : bio = (fun j => default [] (bits_at dvars j)) <$> seq 0 (length dvars)).
+  { unfold bio. apply omap_all_Some. intros x Hx%elem_of_seq.
+    destruct (dw_level_ex x ltac:(lia)) as (v&bits'&Hin).
+    by rewrite (proj2 (bits_at_Some x bits') (ex_intro _ v Hin)). }
+  rewrite E, list_lookup_fmap. split.
+  - destruct (seq 0 (length dvars) !! j) as [j'|] eqn:Ej; [|done].
+    apply lookup_seq in Ej as [-> Hj]. cbn. intros [= <-].
+    destruct (dw_level_ex j Hj) as (v&bits'&Hin).
+    rewrite (proj2 (bits_at_Some j bits') (ex_intro _ v Hin)). by exists v.
+  - intros [v Hin]. pose proof (dw_level_lt _ _ _ Hin) as Hj.
+    rewrite (proj2 (lookup_seq 0 (length dvars) j j) (conj eq_refl Hj)). cbn.
+    by rewrite (proj2 (bits_at_Some j bits) (ex_intro _ v Hin)).
+Qed.
+
+Lemma target_elem b : b ∈ b2m_target dvars ↔ b ∈ (b2v dvars).*1.
+Proof.
+  unfold b2m_target. fold bio. rewrite elem_of_list_In, in_concat. split.
+  - intros (blk&Hblk&Hb). apply elem_of_list_In, elem_of_list_lookup in Hblk as [j Hj].
+    apply bio_lookup in Hj as [v Hin]. apply elem_of_list_fmap. exists (b, v). split; [done|].
+    apply b2v_elem. exists j, blk. split; [done|]. by apply elem_of_list_In.
+  - intros ([b' v]&->&Hin)%elem_of_list_fmap. apply b2v_elem in Hin as (j&bits&Hin&Hb).
+    exists bits. split; [|by apply elem_of_list_In].
+    apply elem_of_list_In, elem_of_list_lookup. exists j. apply bio_lookup. by exists v.
+Qed.
+End dwf.
+
+(** *** lists of blocks *)
+Lemma NoDup_concat {A} (L : list (list A)) :
+  (∀ j blk, L !! j = Some blk → NoDup blk) →
+  (∀ j j' blk blk' x, L !! j = Some blk → L !! j' = Some blk' → x ∈ blk → x ∈ blk' → j = j') →
+  NoDup (concat L).
+Proof.
+  induction L as [|blk0 L IH]; intros H1 H2; [constructor|]. cbn [concat].
+  apply NoDup_app. split_and!.
+  - by apply (H1 0).
+  - intros x Hx Hx'. apply elem_of_list_In, in_concat in Hx' as (blk&Hblk&Hxb).
+    apply elem_of_list_In, elem_of_list_lookup in Hblk as [j Hj].
+    by pose proof (H2 0 (S j) blk0 blk x eq_refl Hj Hx ltac:(by apply elem_of_list_In)).
+  - apply IH.
+    + intros j blk Hj. by apply (H1 (S j)).
+    + intros j j' blk blk' x Hj Hj' Hx Hx'.
+      by pose proof (H2 (S j) (S j') blk blk' x Hj Hj' Hx Hx') as [= ->].
+Qed.
+
+Lemma concat_mono {A} (L : list (list A)) : ∀ l l' b b' j j' blk blk',
+  NoDup (concat L) → l ≤ l' →
+  concat L !! l = Some b → concat L !! l' = Some b' →
+  L !! j = Some blk → b ∈ blk → L !! j' = Some blk' → b' ∈ blk' → j ≤ j'.
+Proof.
+  induction L as [|blk0 L IH]; intros l l' b b' j j' blk blk' Hnd Hle Hl Hl' Hj Hb Hj' Hb'; [done|].
+  cbn [concat] in *. apply NoDup_app in Hnd as (Hnd0&Hdisj&Hnd').
+  assert (Hin : ∀ (i : nat) x, L !! i = Some x → ∀ y, y ∈ x → y ∈ concat L).
+  { intros i x Hi y Hy. apply elem_of_list_In, in_concat. exists x.
+    split; apply elem_of_list_In; [by eapply elem_of_list_lookup_2|done]. }
+  (* position of an element of the tail *)
+  assert (Htail : ∀ k y, (blk0 ++ concat L) !! k = Some y → y ∈ concat L → length blk0 ≤ k).
+  { intros k y Hk Hy. destruct (decide (k < length blk0)) as [Hlt|]; [|lia]. exfalso.
+    rewrite lookup_app_l in Hk by done. apply (Hdisj y); [by eapply elem_of_list_lookup_2|done]. }
+  destruct j as [|j]; [lia|]. cbn in Hj.
+  pose proof (Htail l b Hl (Hin _ _ Hj _ Hb)) as Hlk.
+  destruct j' as [|j'].
+  - exfalso. injection Hj' as <-.
+    destruct (decide (l' < length blk0)) as [Hlt|Hge]; [lia|].
+    rewrite lookup_app_r in Hl' by lia.
+    apply (Hdisj b'); [done|by eapply elem_of_list_lookup_2].
+  - cbn in Hj'. pose proof (Htail l' b' Hl' (Hin _ _ Hj' _ Hb')) as Hlk'.
+    rewrite lookup_app_r in Hl, Hl' by lia.
+    assert (j ≤ j'); [|lia].
+    apply (IH (l - length blk0) (l' - length blk0) b b' j j' blk blk'); try done. lia.
+Qed.
+
+Lemma imap_index_lookup (l : list nat) b k : NoDup l →
+  (list_to_map (imap (fun k b => (b, k)) l) : gmap nat nat) !! b = Some k ↔ l !! k = Some b.
+Proof.
+  intros Hnd.
+  assert (Hfst : (imap (fun k b => (b, k)) l).*1 = l).
+  { apply list_eq. intros i. rewrite list_lookup_fmap, list_lookup_imap. by destruct (l !! i). }
+  rewrite <- elem_of_list_to_map by (by rewrite Hfst).
+  rewrite elem_of_lookup_imap. split.
+  - by intros (i&y&[= -> ->]&Hi).
+  - intros Hk. by exists k, b.
+Qed.
+
+Section link.
+Context (dvars : dvars_t).
+
+Lemma target_nodup s : dvars_wf dvars s → NoDup (b2m_target dvars).
+Proof.
+  intros Hdw. unfold b2m_target. fold (bio dvars). apply NoDup_concat.
+  - intros j blk [v Hin]%(bio_lookup dvars s Hdw). by apply (dw_bits_nodup dvars s Hdw v j).
+  - intros j j' blk blk' x [v Hin]%(bio_lookup dvars s Hdw) [v' Hin']%(bio_lookup dvars s Hdw) Hx Hx'.
+    assert (v = v') as <-.
+    { apply (dw_owner dvars s Hdw x); apply b2v_elem; eauto. }
+    by destruct (dw_name_inj dvars s Hdw _ _ _ _ _ Hin Hin').
+Qed.
+
+Lemma target_length s : dvars_wf dvars s → length (b2m_target dvars) = nvars s.
+Proof.
+  intros Hdw. unfold nvars. rewrite <- size_dom.
+  rewrite <- (size_list_to_set (C := gset nat)) by (by apply (target_nodup s)).
+  f_equal. apply stdpp.sets.set_eq. intros b.
+  rewrite elem_of_list_to_set, (target_elem dvars s Hdw), (dw_decl _ _ Hdw), elem_of_dom. done.
+Qed.
+
+(** the integer level of a BDD level, when the variables are in the target order *)
+Lemma ilvl_target s l b j v bits : dvars_wf dvars s → Inv s →
+  vars s = list_to_map (b2m_b2s dvars) →
+  b2m_target dvars !! l = Some b → (v, (j, bits)) ∈ dvars → b ∈ bits →
+  ilvl dvars s l = j.
+Proof.
+  intros Hdw HI Hv Hl Hin Hb. unfold ilvl.
+  assert (lvl2var s !! l = Some b) as ->.
+  { apply (inv_vars _ HI). rewrite Hv. apply imap_index_lookup; [by apply (target_nodup s)|done]. }
+  rewrite assoc_alist, (alist_get_nodup _ b v (dw_bits _ _ Hdw)) by (apply b2v_elem; eauto).
+  by rewrite assoc_alist, (alist_get_nodup _ v (j, bits) (dw_names _ _ Hdw) Hin).
+Qed.
+
+Lemma b2m_wf_target s : dvars_wf dvars s → Inv s →
+  vars s = list_to_map (b2m_b2s dvars) → b2m_wf dvars s.
+Proof.
+  intros Hdw HI Hv. split.
+  - split; [|split].
+    + rewrite map_fst_mdd. apply Hdw.
+    + intros v1 v2 l n1 n2 H1 H2.
+      apply elem_of_list_In, in_map_iff in H1 as ([v1' [l1 b1]]&[= -> -> _]&H1).
+      apply elem_of_list_In, in_map_iff in H2 as ([v2' [l2 b2]]&[= -> -> _]&H2).
+      apply elem_of_list_In in H1, H2. by destruct (dw_level_inj dvars s Hdw _ _ _ _ _ H1 H2).
+    + intros l Hl. rewrite map_length in Hl.
+      destruct (dw_level_ex dvars s Hdw l Hl) as (v&bits&Hin). exists v, (2 ^ length bits).
+      apply elem_of_list_In, in_map_iff. exists (v, (l, bits)). split; [done|]. by apply elem_of_list_In.
+  - apply (dw_level_lt dvars s Hdw).
+  - apply (dw_bits_nodup dvars s Hdw).
+  - apply (dw_owner dvars s Hdw).
+  - intros l l' Hle Hl'. rewrite <- (target_length s Hdw) in Hl'.
+    destruct (lookup_lt_is_Some_2 (b2m_target dvars) l ltac:(lia)) as [b Hb].
+    destruct (lookup_lt_is_Some_2 (b2m_target dvars) l' Hl') as [b' Hb'].
+    assert (Hblk : ∀ k x, b2m_target dvars !! k = Some x →
+              ∃ j v bits, bio dvars !! j = Some bits ∧ (v, (j, bits)) ∈ dvars ∧ x ∈ bits).
+    { intros k x Hk. apply elem_of_list_lookup_2, elem_of_list_In, in_concat in Hk as (blk&Hblk&Hx).
+      apply elem_of_list_In, elem_of_list_lookup in Hblk as [j Hj].
+      pose proof Hj as [v Hin]%(bio_lookup dvars s Hdw). exists j, v, blk.
+      split_and!; try done. by apply elem_of_list_In. }
+    destruct (Hblk _ _ Hb) as (j&v&bits&Hj&Hin&Hbb).
+    destruct (Hblk _ _ Hb') as (j'&v'&bits'&Hj'&Hin'&Hbb').
+    rewrite (ilvl_target s l b j v bits), (ilvl_target s l' b' j' v' bits') by done.
+    apply (concat_mono (bio dvars) l l' b b' j j' bits bits'); try done.
+    apply (target_nodup s Hdw).
+Qed.
+End link.
+
+Lemma b2s_fst dvars : (b2m_b2s dvars).*1 = b2m_target dvars.
+Proof.
+  unfold b2m_b2s. apply list_eq. intros i. rewrite list_lookup_fmap, list_lookup_imap.
+  by destruct (b2m_target dvars !! i).
+Qed.
+
+Lemma dvars_wf_vars dvars s s' : dom (vars s') = dom (vars s) → dvars_wf dvars s → dvars_wf dvars s'.
+Proof.
+  intros E [H1 H2 H3 H4]. split; try done. intros b. rewrite H4, <- !elem_of_dom. by rewrite E.
+Qed.
+
+(** the state after [collect_garbage ;;; reorder(order)] satisfies the
+    hypotheses of the conversion proper; held nodes keep their functions *)
+Theorem b2m_prefix_link dvars s L :
+  Inv s → Counts s L → last_len s = None → tape s = [] →
+  (∀ u, u ∈ roots s → held L u) → dvars_wf dvars s →
+  ∃ s2, (collect_garbage None ;;; reorder (Some (list_to_map (b2m_b2s dvars)))) s = (Ok tt, s2) ∧
+    Inv s2 ∧ Counts s2 L ∧ last_len s2 = None ∧ tape s2 = [] ∧ nozero s2 ∧
+    keepsH L s s2 ∧ vars s2 = list_to_map (b2m_b2s dvars) ∧
+    dvars_wf dvars s2 ∧ b2m_wf dvars s2.
+Proof.
+  intros HI HC Hoff Ht Hroots Hdw.
+  destruct (collect_garbage None s) as [rg s1] eqn:Eg.
+  pose proof (gc_nozero s L rg s1 HI HC Eg) as Hnz1.
+  destruct (nt_collect_garbage None s rg s1 Ht Eg) as [Ht1 _].
+  pose proof Eg as Eg'.
+  apply (gc_safe None s L) in Eg' as (->&HI1&HC1&_&Ev1&El1&Hfr1&_&_); [|done|done|done].
+  assert (HK1 : keepsH L s s1).
+  { intros u Hh. pose proof (held_valid L s u HI HC Hh) as Hvu.
+    destruct Hh as [Hu0 Hh].
+    destruct (gc_preserves_den None s L (Ok tt) s1 u HI HC I Eg Hu0) as (Hv1&_&HD).
+    { destruct Hh as [|Hh]; [by left|right]. apply reach_root; [done|].
+      apply elem_of_dom, Hvu. }
+    split_and!; try done. intros ρ. unfold denv. by rewrite El1, HD. }
+  assert (Hdw1 : dvars_wf dvars s1) by (apply (dvars_wf_vars dvars s); [by rewrite Ev1|done]).
+  set (order := list_to_map (b2m_b2s dvars) : gmap nat nat).
+  assert (Hoff1 : last_len s1 = None) by (destruct Hfr1 as (E&_); by rewrite E).
+  assert (Hroots1 : ∀ u, u ∈ roots s1 → held L u).
+  { destruct Hfr1 as (_&_&E&_). rewrite E. done. }
+  pose proof (target_nodup dvars s1 Hdw1) as Hnd.
+  assert (Hord : ∀ b k, order !! b = Some k ↔ b2m_target dvars !! k = Some b).
+  { intros b k. by apply imap_index_lookup. }
+  rewrite (bind_ok _ _ _ _ _ Eg).
+  destruct (reorder (Some order) s1) as [r s2] eqn:Er.
+  destruct (nt_reorder (Some order) s1 r s2 Ht1 Er) as [Ht2 Hne].
+  cbn [reorder] in Er.
+  destruct (sort_to_order_correct order s1 L r s2 ltac:(by split_and!)) as [?|(->&HStp&Ev2&_)];
+    [| | | |exact Er|done|].
+  - apply stdpp.sets.set_eq. intros b. unfold order. rewrite dom_list_to_map_L, elem_of_list_to_set.
+    rewrite b2s_fst, (target_elem dvars s1 Hdw1), (dw_decl _ _ Hdw1), elem_of_dom. done.
+  - intros v v' l Hv Hv'. apply Hord in Hv, Hv'. congruence.
+  - intros v l Hv. apply Hord in Hv. rewrite <- (target_length dvars s1 Hdw1).
+    by eapply lookup_lt_Some.
+  - done.
+  - destruct HStp as ((HI2&HC2&Hoff2)&Hnv2&HK2&Hnz2).
+    exists s2. split; [done|].
+    assert (Hdw2 : dvars_wf dvars s2).
+    { apply (dvars_wf_vars dvars s1); [|done]. rewrite Ev2.
+      apply stdpp.sets.set_eq. intros b. unfold order. rewrite dom_list_to_map_L, elem_of_list_to_set.
+      rewrite b2s_fst, (target_elem dvars s1 Hdw1), (dw_decl _ _ Hdw1), elem_of_dom. done. }
+    split_and!; try done.
+    + by apply Hnz2.
+    + intros u Hh. destruct (HK1 u Hh) as (?&?&HD1). destruct (HK2 u Hh) as (_&?&HD2).
+      split_and!; try done. intros ρ. by rewrite HD2, HD1.
+    + by apply b2m_wf_target.
+Qed.
+
+(** ** (b) Totality of the conversion proper *)
+
+(** *** predecessors *)
+Definition b2m_preds (s : st) (u : positive) : list positive :=
+  omap (M:=list) (fun pt : positive * triple =>
+    if bool_decide (pt.1 ≠ 1%positive ∧ (absn (t_lo pt.2) = u ∨ absn (t_hi pt.2) = u))
+    then Some pt.1 else None) (map_to_list (succ s)).
+
+Lemma elem_of_preds s u w :
+  w ∈ b2m_preds s u ↔ ∃ tw, succ s !! w = Some tw ∧ w ≠ 1%positive ∧
+                            (absn (t_lo tw) = u ∨ absn (t_hi tw) = u).
+Proof.
+  unfold b2m_preds. rewrite elem_of_list_omap. split.
+  - intros ([w' tw]&Hin&Hf). apply elem_of_map_to_list in Hin. cbn in Hf.
+    case_bool_decide as Hc; [|done]. injection Hf as ->. by exists tw.
+  - intros (tw&Hw&Hw1&Hc). exists (w, tw). split; [by apply elem_of_map_to_list|].
+    cbn. by rewrite bool_decide_eq_true_2.
+Qed.
+
+Lemma remove_dups_length_le {A} `{EqDecision A} (l : list A) : length (remove_dups l) ≤ length l.
+Proof. induction l as [|x l IH]; cbn; [done|]. case_match; cbn; lia. Qed.
+
+Lemma preds_list_le (l : list (positive * triple)) u :
+  (∀ pt, pt ∈ l → pt.1 ≠ 1%positive → t_lo pt.2 ≠ 0%Z ∧ t_hi pt.2 ≠ 0%Z) →
+  length (omap (M:=list) (fun pt : positive * triple =>
+    if bool_decide (pt.1 ≠ 1%positive ∧ (absn (t_lo pt.2) = u ∨ absn (t_hi pt.2) = u))
+    then Some pt.1 else None) l)
+  ≤ foldr (uncurry (fun (_ : positive) t acc => edges_to t u + acc)) 0 l.
+Proof.
+  induction l as [|[k t] l IH]; intros Hall; [done|].
+  assert (IH' := IH ltac:(intros; apply Hall; [by right|done])).
+  cbn. case_bool_decide as Hc; cbn; [|cbn in IH'; lia].
+  cbn in IH'.
+  destruct Hc as [Hk Hc]. destruct (Hall (k, t) ltac:(left) Hk) as [Hl0 Hh0]. cbn in Hl0, Hh0.
+  assert (0 < edges_to t u); [|lia].
+  destruct Hc as [<-|<-]; [by apply edges_to_lo|by apply edges_to_hi].
+Qed.
+
+Lemma preds_le_indeg s u : Inv s →
+  length (remove_dups (b2m_preds s u)) ≤ indeg (succ s) u.
+Proof.
+  intros HI. etrans; [apply remove_dups_length_le|].
+  apply (preds_list_le (map_to_list (succ s)) u).
+  intros [k t] Hin%elem_of_map_to_list Hk. cbn [fst snd] in *.
+  destruct (inv_node _ HI _ _ Hin Hk) as (_&Hvl&Hhp&_). split; [apply Hvl|lia].
+Qed.
+
+Lemma preds_of_indeg s u : Inv s → 0 < indeg (succ s) u → ∃ w, w ∈ b2m_preds s u.
+Proof.
+  intros HI Hi. destruct (indeg_pos _ _ Hi) as (k&t&Hk&He).
+  destruct (Inv_edges_dom s k t u HI Hk He) as [_ Hk1].
+  exists k. apply elem_of_preds. exists t. split_and!; try done.
+  destruct (edges_to_cases _ _ He) as [[_ ?]|[_ ?]]; auto.
+Qed.
+
+Lemma foldr_min_le l ls x : x ∈ l :: ls → foldr Nat.min l ls ≤ x.
+Proof.
+  revert x. induction ls as [|y ls IH]; intros x Hx; cbn.
+  - by apply elem_of_list_singleton in Hx as ->.
+  - assert (Hx' : x = y ∨ x ∈ l :: ls).
+    { apply elem_of_cons in Hx as [->|Hx]; [right; left|].
+      apply elem_of_cons in Hx as [->|Hx]; [by left|right; by right]. }
+    destruct Hx' as [->|Hx']; [lia|]. pose proof (IH x Hx'). lia.
+Qed.
